@@ -58,8 +58,8 @@ class MAIL(Aggregate):
         # Keep input free of side effects
         elem = deepcopy(elem)
 
-        frm = elem.find("./FROM")
-        if frm is not None:
+        # Rename every occurrence, so that a repeated <FROM> is seen as a duplicate
+        for frm in elem.findall("./FROM"):
             logger.debug("Renaming <FROM> to <FRM>")
             frm.tag = "FRM"
 
